@@ -13,6 +13,7 @@ CLAIMS = {
  "C14": {"engine": "E1-package-pbt", "technique": "property-based testing: generated result sequences with hostile strings through the real JSON logger, decode-back oracle and de-duplication model", "design_ref": "DESIGN.md §2 C14", "text": "x", "note": "y"},
  "C06": {"engine": "E1-package-pbt", "technique": "property-based testing: structured frame mutation sequences through one processor instance; native fuzzing in the thorough tier; oracle = independent decoder", "design_ref": "DESIGN.md §2 C06", "text": "x", "note": "y"},
  "C07": {"engine": "E1-package-pbt", "technique": "property-based testing under the race detector: generated request streams with injected failures through the real pipeline stages, multiset oracle", "design_ref": "DESIGN.md §2 C07", "text": "x", "note": "y"},
+ "C08": {"engine": "E1-package-pbt", "technique": "property-based testing under the race detector: generated target files and per-target outcomes through the real application engine, exactly-once multiset oracle", "design_ref": "DESIGN.md §2 C08", "text": "x", "note": "y"},
  "C04": {
   "engine": "E1-package-pbt",
   "technique": "property-based testing: bitmap permutation oracle on generated sizes/seeds + exhaustive number-theoretic check of the 32-row table with generated draws",
